@@ -48,6 +48,8 @@ type Repo struct {
 	nInfo      int
 	BeforeGet  func(nth int, r *Repo) // called (locked) before serving the nth Get SDR
 	BeforeInfo func(nth int, r *Repo) // called (locked) before serving the nth Get SDR Repository Info
+	// KeepStamps: modifications leave both timestamps as they are.
+	KeepStamps bool
 	// StampFn, when set, gives the timestamp a modification is stamped with
 	// (from the stamp it replaces); default: a few seconds later.
 	StampFn func(old uint32) uint32
@@ -67,6 +69,14 @@ func (r *Repo) ModifyLocked(recs []SDRRecord, erase, cancelResv bool) {
 	r.Version++
 	r.Recs = recs
 	r.History[r.Version] = append([]SDRRecord(nil), recs...)
+	if r.KeepStamps {
+		// a BMC that renumbers or rewrites records without touching its timestamps: only the
+		// cancelled reservation tells the console
+		if cancelResv {
+			r.Resv += 0x101
+		}
+		return
+	}
 	stamp := func(old uint32) uint32 {
 		if r.StampFn != nil {
 			return r.StampFn(old)
